@@ -204,17 +204,14 @@ GetAddress(A, cf, idx) ==
     IF ~q.ok THEN q ELSE RdAddr(A.sec, q.p, cf.asz, cf.le)
 
 (* RangeLists::get_offset / LocationLists::get_offset on the v5 section:    *)
-(* base + the index-th format-sized word after base.  index * word_size    *)
-(* and base.0 + x are unchecked in the code (panic with overflow checks,    *)
-(* wrap without): the model reports the distinguished errors "MulOverflow"  *)
-(* / "AddOverflow" for such inputs, see notes/C08.md.                       *)
+(* base + the index-th format-sized word after base.  index * word_size is  *)
+(* a checked multiplication (UnsupportedOffset), base + x wraps (usize).    *)
 GetOffset(sec, cf, base, idx) ==
     LET ws == IF cf.fmt = 64 THEN 8 ELSE 4
-        q  == SkipBaseIndex(sec, base, idx, ws, "MulOverflow") IN
+        q  == SkipBaseIndex(sec, base, idx, ws, "UnsupportedOffset") IN
     IF ~q.ok THEN q ELSE
     LET x == RdFixed(sec, q.p, ws, cf.le) IN
     IF ~x.ok THEN x
-    ELSE IF AddOverflows(base, x.v) THEN RErr("AddOverflow")
     ELSE ROk(Add(base, x.v), 0)
 
 (*--------------------------------------------------------------------------*)
